@@ -6,7 +6,7 @@ package rsync
 // Two regimes whose OUTCOME does not depend on scheduling: (a) the holder releases
 // long (>= 2.8 s) before the deadline -> must acquire; (b) the holder never releases
 // -> must time out. Only the outcome class is diffed. Measured times are judged by the
-// oracle against the model's bounds with 1.5 s slack, and with exact lower bounds that
+// oracle against the model's bounds with 5 s slack, and with exact lower bounds that
 // hold on any machine (no acquisition before the release began, no give-up before the
 // deadline).
 
@@ -21,7 +21,7 @@ import (
 func TestVerifC31Cas(t *testing.T) {
 	rep := vfNewReport("C31", "BeginWithRetry on the real CheckAndSet: (a) timeout 3 s, retry interval {1,5,20} ms, holder of {none,0,1,10,50,150} ms; (b) holder that never releases, timeout {20,60} ms, interval {1,7,25} ms; outcome class diffed with the model, times checked against the model's bounds")
 	defer rep.Write()
-	slack := 1500 * time.Millisecond
+	slack := 5 * time.Second // upper bounds only; generous because the machine may be heavily loaded
 	type tc struct {
 		timeout, interval, hold time.Duration
 		held, forever            bool
